@@ -4,76 +4,95 @@ Local Open Scope nat_scope.
 
 (** Proofs for the concurrent local writers (C17). *)
 
-Definition retf (p : wpc) : list nat :=
-  match p with WDone e => [e] | _ => [] end.
-
-Lemma returned_retf s : returned s = flat_map retf (w_pcs s).
+Lemma returned_eq s : returned s = flat_map wt_acks (w_thr s).
 Proof. reflexivity. Qed.
 
-Lemma set_pc_split :
-  forall (l1 l2 : list wpc) x p,
-    set_pc (length l1) p (l1 ++ x :: l2) = l1 ++ p :: l2.
+Lemma set_thr_split :
+  forall (l1 l2 : list wthr) x t,
+    set_thr (length l1) t (l1 ++ x :: l2) = l1 ++ t :: l2.
 Proof.
-  intros l1 l2 x p. unfold set_pc. induction l1 as [|a l1 IH]; simpl.
+  intros l1 l2 x t. unfold set_thr. induction l1 as [|a l1 IH]; simpl.
   - reflexivity.
   - f_equal. exact IH.
 Qed.
 
-Lemma retf_repeat_start n : flat_map retf (repeat WStart n) = [].
-Proof. induction n as [|n IH]; simpl; [reflexivity | exact IH]. Qed.
-
-Lemma retf_all_done_length :
-  forall l, (forall p, In p l -> exists e, p = WDone e) ->
-            length (flat_map retf l) = length l.
+Lemma sorted_snoc :
+  forall (l : list nat) y,
+    StronglySorted lt l -> (forall x, In x l -> x < y) -> StronglySorted lt (l ++ [y]).
 Proof.
-  induction l as [|a l IH]; intros H; simpl.
-  - reflexivity.
-  - destruct (H a (or_introl eq_refl)) as [e ->]. simpl. f_equal.
-    apply IH. intros p Hp. apply H. right. exact Hp.
+  induction l as [|a l IH]; intros y Hs Hy; simpl.
+  - constructor; constructor.
+  - apply StronglySorted_inv in Hs. destruct Hs as [Hs Ha].
+    constructor.
+    + apply IH; [exact Hs|]. intros x Hx. apply Hy. right. exact Hx.
+    + apply Forall_app. split; [exact Ha|].
+      constructor; [|constructor]. apply Hy. left. reflexivity.
 Qed.
 
-Definition winv (n : nat) (s : wst) : Prop :=
-  length (w_pcs s) = n /\
-  (forall p, In p (w_pcs s) -> p = WStart \/ exists e, p = WDone e) /\
+(** per-thread invariant of the atomic runs: the thread is between two writes, its
+    acknowledged and outstanding writes add up to its count, its entries are in append order *)
+Definition tinv (t : wthr) (c : nat) : Prop :=
+  wt_pc t = WIdle /\ length (wt_acks t) + wt_left t = c /\ StronglySorted lt (wt_acks t).
+
+Definition winv (counts : list nat) (s : wst) : Prop :=
+  Forall2 tinv (w_thr s) counts /\
   w_cache s = w_log s /\ w_view s = w_log s /\
   NoDup (returned s) /\
   (forall e, In e (returned s) -> 1 <= e <= w_log s) /\
   length (returned s) = w_log s.
 
-Lemma winv_init n : winv n (winit n).
+Lemma init_flat counts : flat_map wt_acks (map (fun c => mkWT WIdle c []) counts) = [].
+Proof. induction counts as [|c cs IH]; simpl; [reflexivity | exact IH]. Qed.
+
+Lemma init_tinv counts : Forall2 tinv (map (fun c => mkWT WIdle c []) counts) counts.
 Proof.
-  unfold winv, winit. rewrite returned_retf. simpl. rewrite retf_repeat_start.
-  split; [apply repeat_length|].
-  split; [intros p Hp; left; apply repeat_spec in Hp; exact Hp|].
+  induction counts as [|c cs IH]; simpl; constructor; [|exact IH].
+  unfold tinv. simpl. split; [reflexivity|]. split; [reflexivity | constructor].
+Qed.
+
+Lemma winv_init counts : winv counts (winitc counts).
+Proof.
+  unfold winv, winitc. rewrite returned_eq. simpl. rewrite init_flat.
+  split; [apply init_tinv|].
   split; [reflexivity|]. split; [reflexivity|].
   split; [constructor|].
   split; [intros e He; destruct He | reflexivity].
 Qed.
 
-Lemma winv_step n s i s' : winv n s -> wstep true s i = Some s' -> winv n s'.
+Lemma winv_step counts s i s' : winv counts s -> wstep true s i = Some s' -> winv counts s'.
 Proof.
-  intros (Hlen & Hpc & Hc & Hv & Hnd & Hrng & Hl) Hstep.
-  rewrite returned_retf in Hnd, Hrng, Hl.
-  destruct s as [pcs lg c v]. unfold wstep in Hstep. simpl in *.
-  destruct (nth_error pcs i) as [p|] eqn:En; [|discriminate].
-  destruct (Hpc p (nth_error_In _ _ En)) as [Hp | [e Hp]]; subst p; [|discriminate].
-  injection Hstep as <-.
+  intros (Hthr & Hc & Hv & Hnd & Hrng & Hl) Hstep.
+  rewrite returned_eq in Hnd, Hrng, Hl.
+  destruct s as [thr lg c v]. unfold wstep in Hstep. simpl in *.
+  destruct (nth_error thr i) as [t|] eqn:En; [|discriminate].
   destruct (nth_error_split _ _ En) as (l1 & l2 & Hsplit & Hi).
-  subst i pcs. rewrite set_pc_split.
-  unfold winv. rewrite returned_retf. simpl.
+  subst i thr.
+  apply Forall2_app_inv_l in Hthr. destruct Hthr as (c1 & c2' & H1 & H2 & Hcounts).
+  inversion H2 as [|t0 ct l2' c2 Ht H2' E1 E2]. subst t0 l2' c2' counts.
+  destruct Ht as (Hpc & Hsum & Hsorted).
+  rewrite Hpc in Hstep.
+  destruct (wt_left t) as [|k] eqn:Eleft; [discriminate|].
+  injection Hstep as <-.
+  rewrite set_thr_split.
+  unfold winv. rewrite returned_eq. simpl.
   rewrite flat_map_app in *. simpl in *.
-  assert (HP : Permutation (S lg :: flat_map retf l1 ++ flat_map retf l2)
-                           (flat_map retf l1 ++ S lg :: flat_map retf l2))
-    by apply Permutation_middle.
-  assert (Hnd' : NoDup (S lg :: flat_map retf l1 ++ flat_map retf l2)).
+  set (R1 := flat_map wt_acks l1) in *. set (R2 := flat_map wt_acks l2) in *.
+  assert (HP : Permutation (S lg :: R1 ++ wt_acks t ++ R2)
+                           (R1 ++ (wt_acks t ++ [S lg]) ++ R2)).
+  { apply Permutation_trans with ((R1 ++ wt_acks t) ++ S lg :: R2).
+    - apply Permutation_cons_app. rewrite app_assoc. apply Permutation_refl.
+    - rewrite <- !app_assoc. simpl. apply Permutation_refl. }
+  assert (Hnd' : NoDup (S lg :: R1 ++ wt_acks t ++ R2)).
   { constructor; [|exact Hnd]. intros H. apply Hrng in H. lia. }
   split.
-  { rewrite app_length in *. simpl in *. exact Hlen. }
-  split.
-  { intros p Hp. apply in_app_iff in Hp. destruct Hp as [Hp | [Hp | Hp]].
-    - apply Hpc. apply in_app_iff. left. exact Hp.
-    - right. exists (S lg). symmetry. exact Hp.
-    - apply Hpc. apply in_app_iff. right. right. exact Hp. }
+  { apply Forall2_app; [exact H1|]. constructor; [|exact H2'].
+    unfold tinv. simpl. split; [reflexivity|]. split.
+    - rewrite app_length. simpl. lia.
+    - apply sorted_snoc; [exact Hsorted|].
+      intros x Hx.
+      assert (Hin : In x (R1 ++ wt_acks t ++ R2)).
+      { apply in_app_iff. right. apply in_app_iff. left. exact Hx. }
+      apply Hrng in Hin. lia. }
   split; [reflexivity|]. split; [reflexivity|].
   split.
   { exact (Permutation_NoDup HP Hnd'). }
@@ -83,7 +102,7 @@ Proof.
   rewrite <- (Permutation_length HP). simpl. f_equal. exact Hl.
 Qed.
 
-Lemma winv_run n : forall sched s, winv n s -> winv n (wrun true sched s).
+Lemma winv_run counts : forall sched s, winv counts s -> winv counts (wrun true sched s).
 Proof.
   induction sched as [|i sched IH]; intros s Hs; simpl.
   - exact Hs.
@@ -92,23 +111,57 @@ Proof.
     + apply IH. exact Hs.
 Qed.
 
+(** when every thread is done the per-thread invariant gives the per-thread result *)
+Lemma done_acks :
+  forall thr counts,
+    Forall2 tinv thr counts -> (forall t, In t thr -> thr_done t) ->
+    Forall2 (fun a c => length a = c /\ StronglySorted lt a) (map wt_acks thr) counts /\
+    length (flat_map wt_acks thr) = list_sum counts.
+Proof.
+  induction 1 as [|t c thr counts Ht Hrest IH]; intros Hdone; simpl.
+  - split; [constructor | reflexivity].
+  - destruct IH as [IH1 IH2]; [intros t' Ht'; apply Hdone; right; exact Ht'|].
+    destruct Ht as (Hpc & Hsum & Hsorted).
+    destruct (Hdone t (or_introl eq_refl)) as [_ Hleft].
+    rewrite Hleft in Hsum.
+    split.
+    + constructor; [|exact IH1]. split; [lia | exact Hsorted].
+    + rewrite app_length, IH2. lia.
+Qed.
+
 Lemma writers_atomic : S_writers_atomic.
 Proof.
-  unfold S_writers_atomic. intros n sched. simpl. intros Hdone.
-  destruct (winv_run n sched (winit n) (winv_init n))
-    as (Hlen & Hpc & Hc & Hv & Hnd & Hrng & Hl).
-  set (s := wrun true sched (winit n)) in *.
-  assert (Hrl : length (returned s) = n).
-  { rewrite returned_retf. rewrite retf_all_done_length; [exact Hlen | exact Hdone]. }
+  unfold S_writers_atomic. intros counts sched. simpl. intros Hdone.
+  destruct (winv_run counts sched (winitc counts) (winv_init counts))
+    as (Hthr & Hc & Hv & Hnd & Hrng & Hl).
+  set (s := wrun true sched (winitc counts)) in *.
+  destruct (done_acks _ _ Hthr Hdone) as [Hacks Hlen].
+  assert (Hrl : length (returned s) = list_sum counts) by (rewrite returned_eq; exact Hlen).
   split; [exact Hnd|]. split; [exact Hrl|]. split; [exact Hrng|].
-  split; [lia|]. split; [exact Hv|]. unfold recovered. exact Hc.
+  split; [lia|]. split; [exact Hv|]. split; [unfold recovered; exact Hc|].
+  exact Hacks.
 Qed.
+
+Lemma list_sum_repeat_1 n : list_sum (repeat 1 n) = n.
+Proof. induction n as [|n IH]; simpl; [reflexivity | f_equal; exact IH]. Qed.
+
+Lemma writers_atomic_single : S_writers_atomic_single.
+Proof.
+  unfold S_writers_atomic_single. intros n sched. simpl. intros Hdone.
+  destruct (writers_atomic (repeat 1 n) sched Hdone) as (H1 & H2 & H3 & H4 & H5 & H6 & _).
+  rewrite list_sum_repeat_1 in H2, H4.
+  repeat split; try assumption; apply H3; assumption.
+Qed.
+
+Ltac all_done_by_compute :=
+  unfold all_done; vm_compute;
+  intros t Ht; repeat (destruct Ht as [Ht | Ht]; [subst t; split; reflexivity|]); destruct Ht.
 
 Lemma writers_refuted_recovery : S_writers_refuted_recovery.
 Proof.
   unfold S_writers_refuted_recovery.
   exists 2, [0; 1; 1; 0; 0; 0; 1; 1]. simpl. split.
-  - unfold all_done. vm_compute. intros p [Hp | [Hp | []]]; subst p; eexists; reflexivity.
+  - all_done_by_compute.
   - vm_compute. lia.
 Qed.
 
@@ -116,10 +169,24 @@ Lemma writers_refuted_view : S_writers_refuted_view.
 Proof.
   unfold S_writers_refuted_view.
   exists 2, [0; 0; 0; 1; 1; 1; 1; 0]. simpl. split.
-  - unfold all_done. vm_compute. intros p [Hp | [Hp | []]]; subst p; eexists; reflexivity.
+  - all_done_by_compute.
+  - vm_compute. lia.
+Qed.
+
+(** thread 0 makes two writes, thread 1 one: T0 completes its first write and appends its
+    second entry (2); T1 appends 3, persists it, rebuilds the view and returns; only then
+    T0 persists 2: recovery restores 1..2, entry 3 was acknowledged and is gone. *)
+Lemma writers_refuted_batch : S_writers_refuted_batch.
+Proof.
+  unfold S_writers_refuted_batch.
+  exists [2; 1], [0; 0; 0; 0; 0; 1; 1; 1; 1; 0; 0; 0]. simpl. split; [|split].
+  - all_done_by_compute.
+  - exists 2. split; [left; reflexivity | lia].
   - vm_compute. lia.
 Qed.
 
 Print Assumptions writers_atomic.
+Print Assumptions writers_atomic_single.
 Print Assumptions writers_refuted_recovery.
 Print Assumptions writers_refuted_view.
+Print Assumptions writers_refuted_batch.
